@@ -201,6 +201,27 @@ def run(ctx):
                 continue
             compare_abstract(A, B, report)
             cur[i] = etext
+    # ---- export without any other output (the XML output switches the network to gons before the export is written)
+    idx = [i for i in range(len(ss)) if surveys[i].deg or i % 4 == 0]
+    jobs = [{"gkf": orig[i], "args": surveys[i].cli(), "want": ["export"]} for i in idx]
+    runs = gl.run_many(ctx, jobs)
+    nruns += len(jobs)
+    for i, run in zip(idx, runs):
+        feats = "".join("+F%d" % e_["e"]["s"] for e_ in ss[i]["edits"] if e_["e"]["k"] == "InputFeatures")
+        tag = "%s%s|%s|export-only" % (ss[i]["net"]["t"], feats, "deg" if surveys[i].deg else "gon")
+
+        def report(chk, msg, i=i, tag=tag):
+            ctx.violation("%s|%s" % (chk, tag), "session %d (%s), export without other outputs: %s" % (i, [e["e"]["k"] for e in ss[i]["edits"]], msg),
+                          replay={"gkf": orig[i], "session": ss[i]})
+        exp = run.files.get("export")
+        if exp is None:
+            if gl.classify(run) in ("crash", "sanitizer", "hang"):
+                report("export_crash", run.out[-400:])
+            continue
+        try:
+            compare_abstract(abstract(orig[i]), abstract(exp.decode("utf-8")), report)
+        except (ET.ParseError, UnicodeDecodeError) as ex:
+            report("export_malformed", "exported file is not well-formed XML: %s" % ex)
     if ss:
         ctx.sample({"net": {k: ss[0]["net"][k] for k in ("t", "axes", "noise")}, "edits": [e["e"] for e in ss[0]["edits"]]})
     ctx.assume("the abstract survey is read from both files by an independent reader (ElementTree) in tools/checks/c13.py")
